@@ -236,7 +236,9 @@ func (c19) Run(ctx *Ctx, ci interface{}) (o Outcome) {
 				applied = false
 				break
 			}
-			_ = al.Consensus(op.Flag, op.N%2 == 0)
+			if cons := al.Consensus(op.Flag, op.N%2 == 0); cons != nil && cons.NbSequences() > 0 && cons.Length() > 0 {
+				cons.SetSequenceChar(0, 0, '#') // writing to the returned object must not reach the input
+			}
 		case "entropy-pssm":
 			isQuery = true
 			if !isAl || n == 0 || L == 0 {
@@ -337,7 +339,9 @@ func (c19) Run(ctx *Ctx, ci interface{}) (o Outcome) {
 			}
 			ss := t.bag.Sequences()
 			pa := align.NewPwAligner(ss[op.I%n], ss[op.J%n], []int{align.ALIGN_ALGO_SW, align.ALIGN_ALGO_ATG}[op.N%2])
-			pa.Alignment()
+			if pal, err := pa.Alignment(); err == nil && pal != nil && pal.NbSequences() > 0 && pal.Length() > 0 {
+				pal.SetSequenceChar(0, 0, '#')
+			}
 			_ = pa.AlignmentStr()
 			_ = pa.MaxScore()
 		case "longest-orf":
@@ -346,7 +350,9 @@ func (c19) Run(ctx *Ctx, ci interface{}) (o Outcome) {
 				applied = false
 				break
 			}
-			t.bag.LongestORF(op.Flag)
+			if orf, err := t.bag.LongestORF(op.Flag); err == nil && orf != nil && orf.Length() > 0 {
+				orf.SequenceChar()[0] = '#' // the ORF that is returned is a new sequence
+			}
 			for _, s := range t.bag.Sequences() {
 				s.LongestORF()
 			}
@@ -359,7 +365,9 @@ func (c19) Run(ctx *Ctx, ci interface{}) (o Outcome) {
 				applied = false
 				break
 			}
-			al.Transpose()
+			if tr, err := al.Transpose(); err == nil && tr != nil && tr.NbSequences() > 0 && tr.Length() > 0 {
+				tr.SetSequenceChar(0, 0, '#')
+			}
 		case "bootstrap":
 			isQuery = true
 			if !isAl || n == 0 {
